@@ -30,6 +30,8 @@ pub fn profile(name: &str) -> VecCfg {
         max_len: 3 * P32,
         commit_deltas: vec![1],
         max_commits: 3,
+        op_timeout_ms: 10_000,
+        holed_cursor: false,
     };
     let mut c = match name {
         // raw formats: the whole editing alphabet
@@ -136,6 +138,11 @@ pub fn profile_spec(spec: &str) -> VecCfg {
                 c.kinds.insert("faults_every_offset");
             }
             "reads" => c.reads = true,
+            "holecursor" => {
+                c.reads = true;
+                c.holed_cursor = true;
+                c.op_timeout_ms = 800;
+            }
             "pidx" => c.page_index = true,
             "c2" => c.max_commits = 2,
             "c4" => c.max_commits = 4,
@@ -228,13 +235,13 @@ fn plan(property: &str, tier: &str) -> Vec<(&'static str, &'static str, usize)> 
         "C03" => {
             if quick {
                 vec![
-                    ("bytes", "raw", 3),
-                    ("pco", "dense", 3),
-                    ("zerocopy", "raw", 2),
-                    ("lz4", "dense", 2),
-                    ("zstd", "dense", 2),
-                    ("eager_bytes", "dense", 2),
-                    ("eager_pco", "dense", 2),
+                    ("zerocopy", "raw", 3),
+                    ("lz4", "dense", 3),
+                    ("zstd", "dense", 3),
+                    ("eager_bytes", "dense", 3),
+                    ("eager_pco", "dense", 3),
+                    ("bytes", "raw", 4),
+                    ("pco", "dense", 5),
                 ]
             } else {
                 vec![
@@ -260,7 +267,7 @@ fn plan(property: &str, tier: &str) -> Vec<(&'static str, &'static str, usize)> 
         }
         "C04" => {
             if quick {
-                vec![("bytes", "rb_raw", 5), ("pco", "rb_dense", 5)]
+                vec![("bytes", "rb_raw", 6), ("pco", "rb_dense", 6)]
             } else {
                 vec![
                     ("bytes", "rb_raw+skip", 7),
@@ -274,9 +281,9 @@ fn plan(property: &str, tier: &str) -> Vec<(&'static str, &'static str, usize)> 
         "C07" => {
             if quick {
                 vec![
-                    ("pco", "dense+pidx", 3),
-                    ("lz4", "dense+pidx", 3),
-                    ("zstd", "dense+pidx", 2),
+                    ("zstd", "dense+pidx", 3),
+                    ("lz4", "dense+pidx", 4),
+                    ("pco", "dense+pidx", 5),
                 ]
             } else {
                 vec![
@@ -294,7 +301,7 @@ fn plan(property: &str, tier: &str) -> Vec<(&'static str, &'static str, usize)> 
         }
         "C13" => {
             if quick {
-                vec![("bytes", "raw_refused", 3), ("pco", "dense_refused", 3)]
+                vec![("bytes", "raw_refused", 5), ("pco", "dense_refused", 4)]
             } else {
                 vec![
                     ("bytes", "raw_refused", 5),
@@ -327,7 +334,13 @@ fn plan(property: &str, tier: &str) -> Vec<(&'static str, &'static str, usize)> 
         }
         "C08" | "C20" => {
             if quick {
-                vec![("bytes", "raw+reads", 3), ("pco", "dense+reads", 3)]
+                vec![
+                    ("bytes", "raw+holecursor", 2),
+                    ("pco", "rb_dense+reads", 4),
+                    ("bytes", "rb_raw+reads", 5),
+                    ("pco", "dense+reads", 3),
+                    ("bytes", "raw+reads", 4),
+                ]
             } else {
                 vec![
                     ("bytes", "raw+reads", 4),
@@ -338,6 +351,7 @@ fn plan(property: &str, tier: &str) -> Vec<(&'static str, &'static str, usize)> 
                     ("eager_pco", "dense+reads", 3),
                     ("bytes", "rb_raw+reads", 5),
                     ("pco", "rb_dense+reads", 5),
+                    ("bytes", "raw+holecursor", 3),
                 ]
             }
         }
